@@ -1092,6 +1092,24 @@ pub fn units() -> Vec<Unit> {
             TraitFn("RegionHandler", "FixedChannelPlan", "select_tx_channel"),
         ],
     },
+    // ---- builder B (tie A for packet fetch, C18)
+    // `RadioBuffer<N>` (lorawan-device/src/radio.rs): `[u8; N]` is a byte list, `&mut self` methods are state-passing
+    Unit {
+        module: "Gen.RadioBufferFn",
+        file: "lorawan-device/src/radio.rs",
+        more_files: vec![],
+        imports: vec![],
+        items: vec![
+            Struct("RadioBuffer"),
+            Fn("RadioBuffer::clear"),
+            Fn("RadioBuffer::set_pos"),
+            Fn("RadioBuffer::extend_from_slice"),
+            Fn("RadioBuffer::as_mut_for_read"),
+            Fn("RadioBuffer::as_ref_for_read"),
+            TraitFn("AsMut", "RadioBuffer", "as_mut"),
+            TraitFn("AsRef", "RadioBuffer", "as_ref"),
+        ],
+    },
     ]
 }
 
